@@ -98,7 +98,9 @@ class InfiniteAtmosphericLayer(AtmosphericLayer):
         self._make_covariance_matrices()
         self._make_ab_matrices()
 
-        self._original_rng = self.rng
+        # Take a snapshot: `self.rng` may be the caller's Generator (see `seed`), and anything the
+        # caller draws from it later would change what reset() replays.
+        self._original_rng = copy.deepcopy(self.rng)
         self.reset()
 
         self._initialized = True
